@@ -17,6 +17,10 @@ step leg             forward -> observer call(s) -> loss = task + strength*cost 
                      twin wrapper that never called the observer: cost.requires_grad, the gradient of every parameter
                      (None-ness included, NAS parameters first) and the parameters after the step must be equal
                      (`optimizer_step_after_observers`; driver command `stepcase`).
+failing observer     `exportraises`: export() with a conversion that raises after it traced the seed in eval mode and ran the
+                     shape-propagation forward (injected through the method module's `convert`); it is an observer too:
+                     flags, sampled coefficients, state_dict, outputs, cost and the following steps equal the twin's
+                     (`raising_export_leaves_state`; key C18:<method>:export-raises:state-left-behind).
 oracle leg           the property itself on those walks: an observer call leaves outputs (fixed input,
                      fixed seed), cost values, summary, state_dict (bit-compared), per-module `.training`,
                      `requires_grad`, plain attribute values and sampled coefficients unchanged; repeated
@@ -31,7 +35,7 @@ from .. import fingerprint as fp
 from .. import obs_models as om
 
 SLOTS = ('s0', 's1', 'd0', 'd1')
-OBSERVERS = ('export', 'exportnobn', 'summary', 'cost', 'getcost', 'getcostb')
+OBSERVERS = ('export', 'exportnobn', 'summary', 'cost', 'getcost', 'getcostb', 'exportraises')
 COSTS = ('cost', 'getcost', 'getcostb')
 
 
@@ -47,7 +51,7 @@ def slot_specs(spec):
 
 
 def alphabet(method):
-    ops = ['export', 'summary', 'cost', 'getcost', 'getcostb', 'forward'] + ['set:' + s for s in SLOTS]
+    ops = ['export', 'summary', 'cost', 'getcost', 'getcostb', 'forward', 'exportraises'] + ['set:' + s for s in SLOTS]
     if method == 'pit':
         ops.append('exportnobn')
     return ops
@@ -134,12 +138,34 @@ def build_for_walk(item):
     return w, shape
 
 
+class InjectedConversionError(Exception):
+    pass
+
+
 def do_op(w, op, slots, x):
     """returns (kind, value) of what the call returned"""
     import torch
     if op == 'forward':
         y = w(x)
         return ('y', fp.thash(y))
+    if op == 'exportraises':
+        # a failing observer: the conversion raises after it has traced the seed in eval mode and run the
+        # shape-propagation forward (what an unsupported layer / dtype error at export time does)
+        import sys
+        mod = sys.modules[type(w).__module__]
+        real = mod.convert
+
+        def failing(*a, **kw):
+            real(*a, **kw)
+            raise InjectedConversionError('injected conversion error')
+        mod.convert = failing
+        try:
+            w.export()
+        except InjectedConversionError:
+            return ('x', None)
+        finally:
+            mod.convert = real
+        raise AssertionError('the injected conversion error was swallowed')
     if op in ('export', 'exportnobn'):
         e = w.export() if op == 'export' else w.export(add_bn=False)
         return ('n', (fp.net_fingerprint(e), e))
@@ -239,8 +265,8 @@ def run_walk(item, twin=True):
         if kind in ('n', 's', 'c'):
             j = next((j for j, (k2, v2) in enumerate(outs) if k2 == kind and v2 == cmpval), len(outs))
             cls = '%s%d' % (kind, j)
-        elif kind == 'e':
-            cls = 'e'
+        elif kind in ('e', 'x'):
+            cls = kind
         outs.append((kind, cmpval))
         res['steps'].append({'op': op, 'changed': comps, 'class': cls, 'derived': derived, 'seen_only': seen_only,
                              'detail': {k: str(v)[:160] for k, v in ch.items()}})
@@ -293,6 +319,20 @@ def run_walk(item, twin=True):
             if sh:
                 res['observations'].append('%s: the exported network shares tensor storage with the NAS model (e.g. %s)'
                                            % (method, sh[0].split('.')[-1]))
+            # not demanded (see `assumptions`): what the caller can do to the NAS model THROUGH the returned network
+            own = {id(m) for m in w.modules()}
+            shared_mods = [n for n, m in val[1].named_modules() if id(m) in own and n]
+            if shared_mods:
+                flags_before = [m.training for m in w.modules()]
+                val[1].eval()
+                flipped = sum(1 for m, t in zip(w.modules(), flags_before) if m.training != t)
+                for m, t in zip(w.modules(), flags_before):
+                    m.training = t
+                res['observations'].append(
+                    '%s: %s of the exported network are the NAS model\'s own module objects%s; training or '
+                    'calling .eval() on the exported network acts on the NAS model'
+                    % (method, 'all leaf modules' if method == 'sn' else 'some modules',
+                       ' - exported.eval() flips the training flag of NAS sub-modules' if flipped else ''))
             last_export = (val[0], sig[0])
         # cost values are a function of (specification, sampled coefficients, parameters)
         memo_key = (after2['spec'], json.dumps(after2['theta'], sort_keys=True), json.dumps(after2['state'], sort_keys=True))
@@ -491,6 +531,8 @@ def _obs_part(r):
 
 
 def _key(method, op, comp):
+    if op == 'exportraises':
+        return 'C18:%s:export-raises:state-left-behind' % method
     if op in ('export', 'exportnobn') and comp in ('modes', 'theta'):
         return 'C18:export:leaves-eval-mode-and-eval-coefficients'
     if method == 'sn' and op == 'summary' and comp in ('theta', 'cost', 'y'):
@@ -523,6 +565,9 @@ def _cases(chk):
         # mixed sub-module modes: BatchNorm / Dropout frozen inside a training wrapper, and the reverse
         add(kind, 1, ['forward', 'export', 'forward', 'summary', 'export', 'forward'], mixed='bn+drop', gumbel=False)
         add(kind, 0, ['forward', 'export', 'forward', 'cost', 'export'], mixed='bn+drop', cost='single')
+        # a failing observer: an export() that raises in the middle of training (uniform and mixed modes)
+        add(kind, 1, ['forward', 'exportraises', 'cost', 'forward', 'exportraises', 'summary'], cost='single', hard=False)
+        add(kind, 1, ['forward', 'exportraises', 'getcost', 'export'], cost='dict', mixed='bn+drop', gumbel=False)
     add('sn', 1, ['forward', 'summary', 'cost', 'summary', 'export', 'cost'], gumbel=True, cost='single', hard=False)
     add('sn', 1, ['forward', 'getcost', 'summary', 'getcost', 'forward', 'summary'], gumbel=True, cost='dict')
     add('mpsl', 1, ['forward', 'cost', 'set:s1', 'cost', 'set:s0', 'cost'], cost='single')
@@ -575,6 +620,19 @@ def run(chk):
         'made where no forward draws random numbers, or from the same seed before the forward.',
         'Instance attributes that an observer adds to layers without influencing any observable (output_shape written by '
         'the full_cost / SuperNet branch cost paths) are observations, not violations (DESIGN appendix E).',
+        'Reading of "the search can continue afterwards exactly as if they had not been called": C18 is about the CALLS of '
+        'the alphabet on the NAS model. The export call itself is demanded to be clean (and is); what the caller later does '
+        'with the RETURNED network is outside the alphabet. The returned network aliases the NAS model: SuperNet.export() is '
+        'built from the NAS model\'s own modules and parameter tensors, MPS.export() copies weights but shares the quantizer '
+        'objects (PACT clip_val parameters) with the NAS model and with other exports, PIT.export() shares every leaf it does '
+        'not rebuild (Dropout, activations, pooling, excluded layers). Calling .eval() on / fine-tuning the exported network '
+        'therefore acts on the NAS model. The check measures the aliasing (shared storage, shared module objects, flags flipped '
+        'by exported.eval()) and reports it as an observation, not as a violation; deep-copying the exported network before use '
+        'avoids it.',
+        'Container contents an observer rewrites without changing any observable are observations: MPS per-channel export() '
+        'sets quantizer_kwargs["cout"] in a dict shared by all bias quantizers (the module-level DEFAULT_QINFO when the default '
+        'qinfo is used) and leaves group-sized cached weight ranges (ch_min/ch_max, recomputed by the next forward); '
+        'SuperNetCombiner.get_cost writes output_shape into branch layers whatever full_cost is (modelled: costAddsAttrs).',
         'PIT.export(add_bn=False) behaves exactly like export() (it clears an attribute, following_bn_args, that no layer '
         'has): for C18 it is one more observer; that the flag has no effect is outside C18 (it is a statement about the '
         'exported network, not about the NAS model).']
